@@ -89,7 +89,7 @@ def yaml_text(rnd, elems, logging, extra):
     return "\n".join(lines) + "\n"
 
 
-def python_text(rnd, elems):
+def python_text(rnd, elems, scouts=0):
     imports = ["from vplug import VSvcCtrl, VSvcDeco, VSvcAgain, VSvcStubborn, VSvcTrioDeco, VSvcThread, VSvcPool, VSvcEmpty, VSvcWaiter, VDeco, VPool",
                "from cobald.controller.linear import LinearController", "from cobald.decorator.standardiser import Standardiser",
                "from cobald.decorator.logger import Logger"]
@@ -107,6 +107,11 @@ def python_text(rnd, elems):
         imports = ["from __future__ import annotations", "from dataclasses import dataclass, field"] + imports
         body = ["", "", "@dataclass", "class Site:", "    name: str = 'verif'", "    tags: list[str] = field(default_factory=list)", "", "",
                 "SITE = Site(tags=['a'])"] + body
+    if scouts:
+        # temporary helper services: defined, waited for, dropped again - then just as many real services are defined
+        imports = imports + ["from vplug import VSvcScout", "import gc"]
+        body = ["_scouts = [VSvcScout(label='scout%d' % i) for i in range(" + str(scouts) + ")]", "for _s in _scouts:", "    _s.done.wait(5)",
+                "import time", "time.sleep(0.3)", "del _s, _scouts", "gc.collect()"] + body
     return "\n".join(imports + body) + "\n"
 
 
@@ -164,6 +169,14 @@ def gen_case(rnd, spec):
         forced, kind, fmt = "second_document", "invalid", "yaml"
     if spec["case_index"] == 4 and spec["shard"] in (0, 1):
         kind, fmt = "valid", "yaml"  # the large file, see below
+    if spec["case_index"] == 5 and spec["shard"] in (0, 1, 2):
+        kind, fmt = "valid", "python"  # temporary helper services, see below
+    slow_asyncio = spec["case_index"] == 0 and spec["shard"] in (2, 3)
+    if slow_asyncio:
+        # an asyncio service whose constructor takes half a second: its run() is only started once the configuration is built,
+        # so this is a valid configuration that works (unlike the trio / thread case below) - whatever the runtime logs meanwhile
+        kind = "valid"
+        elems.insert(0, ["VSvcDeco", "svcR", {"label": "svcR", "period": 0.05, "slow_init": 0.5}])
     slow = spec["case_index"] == 0 and spec["shard"] in (0, 1)  # the recorded finding, exercised on every run
     if slow:
         kind = "valid"
@@ -171,7 +184,7 @@ def gen_case(rnd, spec):
         victim[2]["slow_init"] = 0.5
     case = {"kind": kind, "format": fmt, "elems": elems, "suffix": rnd.choice([".yaml", ".yml"]) if fmt == "yaml" else ".py",
             "logging": fmt == "yaml" and rnd.random() < 0.35, "extra": fmt == "yaml" and rnd.random() < 0.25,
-            "signal_after": rnd.choice([0.2, 0.4, 0.7, 1.0]), "defect": None, "missing_file": False, "slow_init": slow}
+            "signal_after": rnd.choice([0.2, 0.4, 0.7, 1.0]), "defect": None, "missing_file": False, "slow_init": slow, "slow_asyncio": slow_asyncio}
     if kind == "failing":
         victims = [e for e in elems if e[1] and e[0] != "VSvcWaiter"]  # the waiter never fails by itself
         if not victims:
@@ -193,7 +206,11 @@ def gen_case(rnd, spec):
                 v[2]["fail_after"] = rnd.choice([0, 1, 3, 6])
             v[2]["fail_how"] = rnd.choice(["systemexit", "base"])
         case["defect"] = "service %s %ss after %d beats" % (v[1], v[2]["fail_how"], v[2]["fail_after"])
-    text = yaml_text(rnd, elems, case["logging"], case["extra"]) if fmt == "yaml" else python_text(rnd, elems)
+    scouts = 0
+    if fmt == "python" and kind == "valid" and (rnd.random() < 0.3 or (spec["case_index"] == 5 and spec["shard"] in (0, 1, 2))):
+        scouts = sum(1 for e in elems if e[1])  # as many as the configuration has real services
+        case["scouts"] = scouts
+    text = yaml_text(rnd, elems, case["logging"], case["extra"]) if fmt == "yaml" else python_text(rnd, elems, scouts)
     if kind == "invalid":
         defect = rnd.choice(["unknown_section", "missing_pipeline", "ctor_error", "syntax", "unknown_tag", "py_raises", "bad_extension", "no_extension", "missing_file",
                              "python_tag", "bad_logging", "second_document"])
@@ -352,6 +369,10 @@ def execute(case, result):
             bad("traceback on the log after a graceful stop")
         if case["logging"]:
             result.count("valid_with_logging_section")
+        if case.get("scouts") and len(run.of("scout")) >= case["scouts"]:
+            result.count("valid_python_configs_using_temporary_helper_services")
+        if case.get("slow_asyncio") and run.of("ctor-begin"):
+            result.count("valid_configs_with_a_slowly_constructed_asyncio_service")
         if case.get("large"):
             result.count("valid_yaml_files_larger_than_8_kB")
     else:
@@ -390,7 +411,7 @@ def finish(total, tier):
     need = ["daemons_valid", "daemons_invalid", "daemons_failing", "configs_yaml", "configs_python", "services_checked_trio",
             "services_checked_asyncio", "services_checked_threading", "failing_services_after_start", "valid_with_logging_section", "falsy_services_checked", "private_waiter_services_checked", "services_in_large_injected_configs",
             "failing_services_with_base_exception_threading", "defect_unknown_extension_with_byte_compiled_config",
-            "defect_broken_element", "defect_pipeline_not_a_list", "defect_bad_logging", "defect_second_document", "valid_yaml_files_larger_than_8_kB", "failing_services_returning_a_false_value_trio", "failing_services_returning_a_false_value_asyncio", "python_configs_named_like_a_module_they_import", "configs_with_more_than_one_dot_in_the_file_name", "python_configs_defining_a_dataclass", "services_of_a_class_decorated_twice_checked", "services_that_absorb_one_cancellation_checked", "large_configs_of_mostly_trio_services"]
+            "defect_broken_element", "defect_pipeline_not_a_list", "defect_bad_logging", "defect_second_document", "valid_python_configs_using_temporary_helper_services", "valid_configs_with_a_slowly_constructed_asyncio_service", "valid_yaml_files_larger_than_8_kB", "failing_services_returning_a_false_value_trio", "failing_services_returning_a_false_value_asyncio", "python_configs_named_like_a_module_they_import", "configs_with_more_than_one_dot_in_the_file_name", "python_configs_defining_a_dataclass", "services_of_a_class_decorated_twice_checked", "services_that_absorb_one_cancellation_checked", "large_configs_of_mostly_trio_services"]
     for name in need:
         if not total.counters.get(name) and not total.violations:
             total.inconc("monitor never observed: " + name)
